@@ -9,6 +9,7 @@ CHECKS = {
             {"pkg": "Havoc/pkg/agent", "with": AGENT_WITH, "entries": ["H_c01_dispatch"], "shards": 16},
             {"pkg": "Havoc/pkg/handlers", "with": ["Havoc/pkg/agent"] + AGENT_WITH, "entries": ["H_c01_request_raw"], "shards": 8},
             {"pkg": "Havoc/pkg/handlers", "with": ["Havoc/pkg/agent"] + AGENT_WITH, "entries": ["H_c01_request_hdr"], "shards": 4},
+            {"pkg": "Havoc/pkg/agent", "with": AGENT_WITH + ["Havoc/pkg/common/parser", "Havoc/pkg/common/parser@lazy"], "entries": ["H_c01_dispatch_lazy"], "shards": 31, "flags": ["-loop-cut", "TaskDispatch=2"]},
             {"pkg": "Havoc/pkg/agent", "with": AGENT_WITH, "entries": ["H_c01_dispatch_deep"], "shards": 64, "flags": ["-conc-limit", "2", "-time", "240s", "-loop-cut", "TaskDispatch=3"], "disabled": True},
         ],
         "bounds": "TaskDispatch: every command id with a case + one arbitrary other id; body 0..24 arbitrary bytes; state S (3 agents, pivot child, open socket/portfwd).",
